@@ -804,6 +804,22 @@ def _sum(I, t, dim=None, keepdim=False, **k):
         raise Unsupported("sum without a single dim / keepdim on symbolic shapes")
     d = dim % len(t.shape)
     out_shape = t.shape[:d] + t.shape[d + 1:]
+    if I.ex.ghost.get("unroll_small_sums") and isinstance(t.shape[d], int) and 0 <= t.shape[d] <= 8 and not isinstance(t.elem(*([0] * len(t.shape))), (ct.NegGuarded, Guarded)):
+        # a small concrete extent, and the sidecar asked for it: the sum written out (no contract needed)
+        te_, ext = t.elem, t.shape[d]
+        integral_ = t.dtype in ("long", "bool")
+
+        def unrolled(*idx):
+            tot = z3.IntVal(0) if integral_ else z3.RealVal(0)
+            for j in range(ext):
+                x = te_(*(list(idx[:d]) + [j] + list(idx[d:])))
+                x = int(x) if isinstance(x, bool) else x
+                x = to_z3(x)
+                x = z3.If(x, 1, 0) if z3.is_bool(x) else x
+                tot = tot + (z3.ToReal(x) if (not integral_ and z3.is_int(x)) else x)
+            return tot
+
+        return ST(out_shape, unrolled, "long" if integral_ else "float")
     n = to_z3(t.shape[d])
     integral = t.dtype in ("long", "bool")  # torch sums integer and Boolean tensors into int64
     S = _fresh("partial_sum", *([z3.IntSort()] * (len(out_shape) + 1) + [z3.IntSort() if integral else z3.RealSort()]))
@@ -1205,6 +1221,115 @@ def f_zeros_like(I, t, **k):
 
 def f_as_tensor(I, t, *a, **k):
     return _to(I, t, *a, **{kk: v for kk, v in k.items() if kk == "dtype"})
+
+
+def compaction(I, mask):
+    """row-major counting of the True entries of a Boolean tensor of symbolic shape - the ghost state behind masked_select /
+    masked_scatter. One counter per dimension: CNT[j](i_0 .. i_{j-1}, i) = number of True entries whose first j coordinates are
+    i_0 .. i_{j-1} and whose j-th coordinate is below i (deeper coordinates free), defined by the recurrences
+        CNT[j](p, 0) = 0,   CNT[j](p, i + 1) = CNT[j](p, i) + (mask[p, i] ? 1 : 0           for the last dimension
+                                                               CNT[j+1](p, i, extent_{j+1})   otherwise)
+    rank(idx) = SUM_j CNT[j](idx[:j], idx[j]) = number of True entries before idx in row-major order; total = CNT[0](extent_0).
+    The recurrences are definitions (conservative); instance builders `base(j, prefix)` / `step(j, prefix, i)`."""
+    r = len(mask.shape)
+    dims = [to_z3(d) for d in mask.shape]
+    Iz = z3.IntSort()
+    CNT = [_fresh("true_before_dim%d" % j, *([Iz] * (j + 1) + [Iz])) for j in range(r)]
+    me = mask.elem
+
+    def mval(idx):
+        e = me(*idx)
+        return z3.BoolVal(e) if isinstance(e, bool) else e
+
+    def base(j, prefix):
+        return CNT[j](*(list(prefix) + [z3.IntVal(0)])) == 0
+
+    def step(j, prefix, i):
+        prefix = list(prefix)
+        inc = z3.If(mval(prefix + [i]), 1, 0) if j == r - 1 else CNT[j + 1](*(prefix + [i, dims[j + 1]]))
+        return z3.Implies(i >= 0, CNT[j](*(prefix + [i + 1])) == CNT[j](*(prefix + [i])) + inc)
+
+    for j in range(r):
+        pv = [z3.Int("p%d_cmp%d" % (a, j)) for a in range(j)]
+        iv = z3.Int("i_cmp%d" % j)
+        I.ex.assume(z3.ForAll(pv, base(j, pv)) if pv else base(j, pv))
+        I.ex.assume(z3.ForAll(pv + [iv], step(j, pv, iv)))
+    rank = lambda idx: z3.Sum([CNT[j](*[to_z3(x) for x in idx[:j + 1]]) for j in range(r)]) if r > 1 else CNT[0](to_z3(idx[0]))
+    inrange = lambda idx: z3.And([z3.And(to_z3(x) >= 0, to_z3(x) < d) for x, d in zip(idx, dims)])
+    rec = {"CNT": CNT, "base": base, "step": step, "rank": rank, "total": CNT[0](dims[0]), "mask": mval, "dims": dims, "inrange": inrange, "rank_": r}
+    I.ex.ghost.setdefault("compactions", []).append(rec)
+    return rec
+
+
+def _bool_like(I, mask, t):
+    """the mask broadcast to the shape of t"""
+    if len(mask.shape) == len(t.shape) and all(dim_eq(a, b) for a, b in zip(mask.shape, t.shape)):
+        return mask
+    return ST.ew(I, lambda m, x: m, mask, t, dtype="bool")
+
+
+@meth("masked_select")
+def _masked_select(I, t, mask):
+    """assumed contract of masked_select: the selected entries in row-major order. out has `total` elements; out[k] = t[POS(k)] where
+    POS(k) is in range, masked, and has exactly k masked entries before it; conversely every masked position idx is POS(rank(idx)).
+    Instance builders `sel(k)` / `inj(idx)` in the compaction record (attached to the result as `.compaction`)."""
+    mask = _bool_like(I, mask, t)
+    rec = compaction(I, mask)
+    r = len(t.shape)
+    POS = [_fresh("selected_index_dim%d" % j, z3.IntSort(), z3.IntSort()) for j in range(r)]
+    pos = lambda k: [P(to_z3(k)) for P in POS]
+    sel = lambda k: z3.Implies(z3.And(k >= 0, k < rec["total"]), z3.And(rec["inrange"](pos(k)), rec["mask"](pos(k)), rec["rank"](pos(k)) == k))
+    inj = lambda idx: z3.Implies(z3.And(rec["inrange"](idx), rec["mask"]([to_z3(x) for x in idx])), z3.And([P(rec["rank"](idx)) == to_z3(x) for P, x in zip(POS, idx)]))
+    kv = z3.Int("k_sel")
+    iv = [z3.Int("i%d_sel" % j) for j in range(r)]
+    I.ex.assume(z3.ForAll([kv], sel(kv)))
+    I.ex.assume(z3.ForAll(iv, inj(iv)))
+    rec.update(POS=POS, sel=sel, inj=inj, kind="select")
+    te = t.elem
+    out = ST((rec["total"],), lambda k: te(*pos(k)), t.dtype)
+    out.compaction = rec
+    return out
+
+
+@meth("masked_scatter")
+def _masked_scatter(I, t, mask, src):
+    """assumed contract of masked_scatter with a rank-1 source: out[idx] = src[rank(idx)] where the mask holds, t[idx] elsewhere; the
+    source must hold at least `total` elements (torch raises otherwise). A sidecar may prove facts about the two countings right
+    before that obligation (`scatter_hooks`)."""
+    if not isinstance(src, ST) or len(src.shape) != 1:
+        raise Unsupported("masked_scatter with a source that is not a rank-1 symbolic-shape tensor")
+    mask = _bool_like(I, mask, t)
+    rec = compaction(I, mask)
+    rec.update(kind="scatter", source=src)
+    for hook in I.ex.ghost.get("scatter_hooks", []):
+        hook(rec, src)
+    I.ex.oblige("masked_scatter.source_has_enough_elements", rec["total"] <= to_z3(src.shape[0]))
+    te, se = t.elem, src.elem
+    return ST(t.shape, lambda *idx: sc_where(rec["mask"]([to_z3(x) for x in idx]), se(rec["rank"](idx)), te(*idx)), t.dtype if t.dtype == src.dtype else "float")
+
+
+@meth("max")
+def _max(I, t, dim=None, keepdim=False):
+    """max over all elements of a rank-1 tensor (no dim): a fresh scalar with the assumed contract `upper bound of every entry, attained
+    at some entry` (instance builders in ghost['maxes']); max of a one-element tensor is that element"""
+    if dim is not None:
+        raise Unsupported("max along a dimension of a symbolic-shape tensor")
+    if all(isinstance(x, int) and x == 1 for x in t.shape):
+        e1 = t.elem(*([0] * len(t.shape)))
+        return ST((), lambda: e1, t.dtype)
+    if len(t.shape) != 1:
+        raise Unsupported("max over all elements of a tensor of rank > 1")
+    n, te = to_z3(t.shape[0]), t.elem
+    mx = I.ex.fresh("int" if t.dtype == "long" else "real", "max")
+    w = I.ex.fresh("int", "argmax")
+    ub = lambda i: z3.Implies(z3.And(i >= 0, i < n), to_z3(te(i)) <= mx)
+    iv = z3.Int("i_max")
+    I.ex.oblige("max.tensor_not_empty", n >= 1)
+    I.ex.assume(z3.ForAll([iv], ub(iv)))
+    att = z3.And(w >= 0, w < n, to_z3(te(w)) == mx)
+    I.ex.assume(att)
+    I.ex.ghost.setdefault("maxes", []).append({"max": mx, "argmax": w, "ub": ub, "att": att})
+    return ST((), lambda: mx, t.dtype)
 
 METH["softmax"] = f_softmax
 FUNCS.update({"torch.nn.functional.one_hot": f_one_hot, "torch._C._nn.one_hot": f_one_hot, "torch.stack": f_stack, "torch.cat": f_cat, "torch.ones": f_ones, "torch.zeros": f_zeros, "torch.nn.functional.softmax": f_softmax, "torch.softmax": f_softmax, "torch.pow": f_pow, "torch.matmul": lambda I, a, b: _matmul(I, a, b), "torch.empty": f_empty, "torch.arange": f_arange, "torch.full": f_full, "torch.full_like": f_full_like, "torch.where": f_where, "torch.min": f_min, "torch.isfinite": f_isfinite, "torch.zeros_like": f_zeros_like, "torch.as_tensor": f_as_tensor})
